@@ -4,6 +4,7 @@ mod c01;
 mod c08;
 mod c10;
 mod c17;
+mod c18;
 mod cssgen;
 mod cssmodel;
 mod common;
@@ -28,6 +29,7 @@ fn main() {
         "c09" => c08::explore(c08::Prop::C09, thorough, &out),
         "c10" => c10::explore(thorough, &out),
         "c17" => c17::explore(thorough, &out),
+        "c18" => c18::explore(thorough, &out),
         "replay" => {
             let engine = args.get(2).expect("engine");
             let file = args.get(3).expect("file");
@@ -38,6 +40,7 @@ fn main() {
                 "c09" => c08::replay(c08::Prop::C09, &v),
                 "c10" => c10::replay(&v),
                 "c17" => c17::replay(&v),
+                "c18" => c18::replay(&v),
                 _ => panic!("unknown engine"),
             };
             println!("{}", r);
